@@ -475,8 +475,12 @@ class ADC(ArithmeticInstruction):
     def lift_operation2(
         self, il: LowLevelILFunction, il_arg1: ExpressionIndex, il_arg2: ExpressionIndex
     ) -> ExpressionIndex:
+        # Form b + C one byte wider so that a carry out of b + C is not lost.
         return il.add(
-            self.width(), il_arg1, il.add(self.width(), il_arg2, il.flag(CFlag)), CZFlag
+            self.width(),
+            il_arg1,
+            il.add(self.width() + 1, il_arg2, il.flag(CFlag)),
+            CZFlag,
         )
 
 
@@ -496,8 +500,12 @@ class SBC(ArithmeticInstruction):
     def lift_operation2(
         self, il: LowLevelILFunction, il_arg1: ExpressionIndex, il_arg2: ExpressionIndex
     ) -> ExpressionIndex:
+        # Form b + C one byte wider so that a borrow out of b + C is not lost.
         return il.sub(
-            self.width(), il_arg1, il.add(self.width(), il_arg2, il.flag(CFlag)), CZFlag
+            self.width(),
+            il_arg1,
+            il.add(self.width() + 1, il_arg2, il.flag(CFlag)),
+            CZFlag,
         )
 
 
@@ -809,13 +817,13 @@ def lift_multi_byte(
 
             if subtract:  # SBCL: m = m - n - C_in. Implemented as m - (n + C_in)
                 # The inner add (n + C_in) must NOT alter flags.
-                term_to_subtract = il.add(w, b, initial_c_flag_expr)
+                term_to_subtract = il.add(w + 1, b, initial_c_flag_expr)
                 main_op_llil = il.sub(
                     w, a, term_to_subtract, CZFlag
                 )  # This SUB sets C and Z flags
             else:  # ADCL: m = m + n + C_in. Implemented as m + (n + C_in)
                 # The inner add (n + C_in) must NOT alter flags.
-                term_to_add = il.add(w, b, initial_c_flag_expr)
+                term_to_add = il.add(w + 1, b, initial_c_flag_expr)
                 main_op_llil = il.add(
                     w, a, term_to_add, CZFlag
                 )  # This ADD sets C and Z flags
